@@ -112,3 +112,86 @@ Definition dur_lexical (s : list ascii) : Prop :=
     (nl = [] \/ nl = [ascii_of_N 10]) /\ fh ++ fm ++ fs <> [].
 
 Definition check_duration (u : Z) : bool := parse_duration_us (duration_string_us u) =? u.
+
+(* ---------------------------------------------------------------- parse_duration, binary64-faithful
+   The code computes  timedelta(hours=int, minutes=int, seconds=float('<seconds>.<fraction>')).total_seconds().
+     float(str)                : the binary64 nearest to the decimal value (correctly rounded, [rnd53])
+     timedelta(seconds=x)      : x is split with modf; floor(x) * 10^6 is added exactly; the fraction is multiplied by
+                                 1e6 IN BINARY64 (one rounding) and the product is rounded half-even to an integer
+                                 (CPython Modules/_datetimemodule.c: accum() + the leftover_us rounding of delta_new)
+     total_seconds()           : microseconds / 10**6 (int / int, correctly rounded)
+   So a fraction of ANY length is ROUNDED (half-even, decided on the binary64 value), never truncated and never
+   mis-scaled; no part of the lexical space is outside this model. *)
+Inductive durf := DfReject | DfOverflow | DfOk (us : Z) (secs : Z * Z).
+
+(* the three groups of the regular expression; None: the string does not match (ValueError) *)
+Definition dur_fields (s : list ascii)
+  : option (option (list ascii) * option (list ascii) * option (list ascii * list ascii)) :=
+  match s with
+  | p :: t :: r0 =>
+      if ceq p "P"%char && ceq t "T"%char then
+        let (h, r1) := opt_field "H"%char r0 in
+        let (m, r2) := opt_field "M"%char r1 in
+        let (sf, r3) := opt_seconds r2 in
+        let fin := match r3 with [] => true | [c] => N.eqb (code c) 10 | _ => false end in
+        if fin && (is_some h || is_some m || is_some sf) then Some (h, m, sf) else None
+      else None
+  | _ => None
+  end.
+
+(* float('<d>.<f>'); an absent fraction ([]) is written as ".0" by the code: the same value *)
+Definition sec_float (d f : list ascii) : Z * Z := rnd53 (digits_val (d ++ f)) (10 ^ len f).
+
+(* microseconds of timedelta(seconds=x) for a non-negative binary64 x = fst x / snd x *)
+Definition td_float_us (x : Z * Z) : Z :=
+  let ip := fst x / snd x in
+  let p := rnd53 ((fst x mod snd x) * 1000000) (snd x) in
+  ip * 1000000 + rne_div (fst p) (snd p).
+
+Definition dur_total_us (h m : option (list ascii)) (sf : option (list ascii * list ascii)) : Z :=
+  optval h * 3600000000 + optval m * 60000000 +
+  match sf with Some (d, f) => td_float_us (sec_float d f) | None => 0 end.
+
+Definition parse_duration_f (s : list ascii) : durf :=
+  match dur_fields s with
+  | None => DfReject
+  | Some (h, m, sf) =>
+      let u := dur_total_us h m sf in
+      if max_us <=? u then DfOverflow else DfOk u (rnd53 u 1000000)
+  end.
+
+(* the exact value of the lexical form in microseconds, as a fraction (numerator, denominator) *)
+Definition dur_exact_us (h m : option (list ascii)) (sf : option (list ascii * list ascii)) : Z * Z :=
+  match sf with
+  | Some (d, f) => ((optval h * 3600000000 + optval m * 60000000) * 10 ^ len f + digits_val (d ++ f) * 1000000, 10 ^ len f)
+  | None => (optval h * 3600000000 + optval m * 60000000, 1)
+  end.
+
+(* correspondence: (-1, 1) rejected, (-2, 1) overflow, else the returned binary64 as a fraction *)
+Definition duration_to_py_f (s : string) : Z * Z :=
+  match parse_duration_f (chars s) with
+  | DfReject => (D_REJECT, 1)
+  | DfOverflow => (D_OVERFLOW, 1)
+  | DfOk _ r => r
+  end.
+(* ... and the integer microseconds of the timedelta *)
+Definition duration_to_py_us (s : string) : Z :=
+  match parse_duration_f (chars s) with
+  | DfReject => D_REJECT
+  | DfOverflow => D_OVERFLOW
+  | DfOk u _ => u
+  end.
+(* boolean twin of the 1 us clause on one string: |r - exact| < 1 us whenever the exact value is at most 2^31 s *)
+Definition check_duration_1us (s : list ascii) : bool :=
+  match dur_fields s with
+  | None => true
+  | Some (h, m, sf) =>
+      let (N, D) := dur_exact_us h m sf in
+      match parse_duration_f s with
+      | DfOk _ (a, b) =>
+          negb (N <=? 2 ^ 31 * 1000000 * D) ||
+          ((- (b * D) <? a * D * 1000000 - N * b) && (a * D * 1000000 - N * b <? b * D))
+      | DfOverflow => negb (N <=? 2 ^ 31 * 1000000 * D)
+      | DfReject => false
+      end
+  end.
